@@ -11,8 +11,8 @@
 (*   CommitteeSizeFromProtocol, QuorumReached   realAccept => clause       *)
 (*   ProposerCredential                          realAccept => clause      *)
 (* and accumulates <<clause, class, line>> for every failing one.          *)
-(* (CertificateQuorum: round 1 of the fixture is not a certificate round;  *)
-(* not reachable in this fixture.)                                         *)
+(*   CertificateQuorum (certificate rounds)      realAccept => clause      *)
+(*   AcCertificateQuorum    acAccept (VerifyAcHeader) => clause            *)
 (***************************************************************************)
 EXTENDS HeaderVerifyDefs
 
@@ -24,17 +24,21 @@ K == { KnownJson[i].signature : i \in DOMAIN KnownJson }
 VARIABLES l, viol, fired
 vars == <<l, viol, fired>>
 
-Clauses == VoteClauses \cup {"ProposerCredential"}
+Clauses == VoteClauses \cup {"ProposerCredential", "CertificateQuorum", "AcCertificateQuorum"}
 \* fired[clause]     = headers presented to the real verifier in which a class of the clause occurs (accepted or not)
 \* fired[acc_clause] = ... of them accepted (the clause's antecedent held on a header it has something to say about)
-Keys == {"Accepted", "Rejected", "Panicked"} \cup Clauses \cup { "acc_" \o c : c \in Clauses }
+Keys == {"Accepted", "Rejected", "Panicked", "AcAccepted", "AcRejected"} \cup Clauses \cup { "acc_" \o c : c \in Clauses }
 
-Touched(F, h) == { ClauseOf(c) : c \in Present(F, h) }
+Touched(F, h) == { ClauseOf(c) : c \in Present(F, VX(F, h, "pre")) }
                  \cup (IF PLab(F, h) # {} THEN {"ProposerCredential"} ELSE {})
                  \cup (IF ~VotesEntitled(F, h) THEN {"QuorumReached"} ELSE {})
+                 \cup (IF F.certRound /\ (~CertEntitled(F, h) \/ Present(F, VX(F, h, "cert")) # {}) THEN {"CertificateQuorum"} ELSE {})
+TouchedAC(F, h) == IF F.certRound /\ (~AcEntitled(F, h) \/ Present(F, VX(F, h, "ac")) # {}) THEN {"AcCertificateQuorum"} ELSE {}
 
 Init == l = 1 /\ viol = {} /\ fired = [k \in Keys |-> 0]
 
+\* realAccept => clause, for the full verifier (VerifySeal / VerifyHeader / VerifySideChainHeader) and, at certificate rounds,
+\* acAccept => AcCertificateQuorum for the light-client path VerifyAcHeader (which verifies the CHT certificates only)
 Step ==
    /\ l <= Len(TraceLog)
    /\ l' = l + 1
@@ -43,10 +47,14 @@ Step ==
       ELSE LET F == Fixtures[e.desc.cfg]
                h == e.desc
                t == Touched(F, h)
+               hasAc == "ac" \in DOMAIN e
+               tac == IF hasAc THEN TouchedAC(F, h) ELSE {}
                hit == t \cup (IF e.accept THEN { "acc_" \o c : c \in t } \cup {"Accepted"}
-                              ELSE {"Rejected"} \cup (IF "panic" \in DOMAIN e THEN {"Panicked"} ELSE {})) IN
+                              ELSE {"Rejected"} \cup (IF "panic" \in DOMAIN e THEN {"Panicked"} ELSE {}))
+                        \cup tac \cup (IF hasAc THEN (IF e.ac THEN { "acc_" \o c : c \in tac } \cup {"AcAccepted"} ELSE {"AcRejected"}) ELSE {}) IN
            /\ fired' = [k \in Keys |-> fired[k] + (IF k \in hit THEN 1 ELSE 0)]
-           /\ viol' = IF e.accept THEN viol \cup { <<f[1], f[2], l>> : f \in Fail(F, h, K) } ELSE viol
+           /\ viol' = viol \cup (IF e.accept THEN { <<f[1], f[2], l>> : f \in Fail(F, h, K) } ELSE {})
+                            \cup (IF hasAc /\ e.ac THEN { <<f[1], f[2], l>> : f \in FailAC(F, h, K) } ELSE {})
 
 Spec == Init /\ [][Step]_vars
 
